@@ -95,7 +95,7 @@ package raft
 //@ pure IsUpd(t entryType) int = ite(t == entryUpdate, 1, 0)
 //@ pure ApplyLogWF(l *log.Log) bool = l != nil && l.gprev <= l.glast && forall(i, l.gprev < i && i <= l.glast ==> l.geidx[i] == i && l.gnupd[i] == l.gnupd[i-1] + IsUpd(l.getyp[i]))
 //@ pure NextIdx(x *newEntry) uint64 = ite(IsLog(x.typ), x.index + 1, x.index)
-//@ pure ChainElem(x *newEntry) bool = x != nil && x.entry != nil && (x.next != nil ==> fq[ref(x.next)] && x.next.index == NextIdx(x) && x.next.gpos == x.gpos + 1 && x.next.gnupd == x.gnupd + IsUpd(x.typ))
+//@ pure ChainElem(x *newEntry) bool = x != nil && allocated(x) && x.entry != nil && (x.next != nil ==> fq[ref(x.next)] && x.next.index == NextIdx(x) && x.next.gpos == x.gpos + 1 && x.next.gnupd == x.gnupd + IsUpd(x.typ))
 //@ pure ChainSep(x *newEntry, y *newEntry) bool = x != y ==> x.gpos != y.gpos && (x.task != nil ==> x.task != y.task)
 //@ pure ChainOK(h *newEntry) bool = (h != nil ==> fq[ref(h)] && h.gnupd == 0 && forall(x, fq[x] ==> NotAfter(h, x))) && (h == nil ==> fqUpd == 0 && forall(x, !fq[x])) && forall(x, fq[x] ==> ChainElem(x)) && forall(x, y, fq[x] && fq[y] ==> ChainSep(x, y))
 //@ pure NotAfter(y *newEntry, x *newEntry) bool = y.gpos <= x.gpos
